@@ -488,7 +488,9 @@ func (k *Kernel) ActorConnect(fromIP [4]byte, toIP [4]byte, toPort int) *TCPEnd 
 	s.lip, s.lport, s.rip, s.rport = toIP, toPort, fromIP, c.lport
 	c.connecting = true
 	c.sndCap, c.rcvCap = 1<<30, 1<<30
+	k.synInFlight++
 	w.After(c.delay(), "actor-syn", func() {
+		k.synInFlight--
 		l := k.findListener(toIP, toPort)
 		c.connecting = false
 		if l == nil || l.actor || len(l.queue) >= l.backlog {
@@ -979,3 +981,14 @@ func (k *Kernel) SelectNoYield(rfds, wfds []int) (rr, wr []int, errno syscall.Er
 	}
 	return
 }
+
+// ListenQueueLen: connections waiting in the accept queue of a listening descriptor.
+func (k *Kernel) ListenQueueLen(fd int) int {
+	if f := k.get(fd); f != nil && f.kind == fkListener {
+		return len(f.lis.queue)
+	}
+	return 0
+}
+
+// ConnectsInFlight: some actor connect has not yet reached its listener.
+func (k *Kernel) ConnectsInFlight() bool { return k.synInFlight > 0 }
